@@ -303,6 +303,25 @@ def sync_history(w, topo, node):
     return out
 
 
+def held_by_hellos(w, topo):
+    """Mechanism probe: a live synchronized consumer of src that sent no request for >= 500 ms although it was waiting for
+    input (no process() call in that time), while src kept broadcasting HELLO messages (for listeners that were still
+    connecting).  Returns (consumer, from_ms, to_ms) or None."""
+    hellos = sorted(e['t'] for e in w.sim.log if e.get('ev') == 'pub' and e['node'] == 'src' and b'"mid":-4' in e['env'])
+    if len(hellos) < 3:
+        return None
+    for edge in topo.consumers_of('src'):
+        c = edge['cons']
+        if edge['eph']:
+            continue
+        reqs = sorted(e['t'] for e in w.sim.log if e.get('ev') == 'push' and e['node'] == c)
+        procs = sorted(e['t'] for e in w.clog if e['ev'] == 'process' and e['node'] == c)
+        for a, b in zip(reqs, reqs[1:]):
+            if b - a >= 500_000_000 and not any(a < t < b for t in procs) and sum(1 for t in hellos if a < t < b) >= 3:
+                return c, a / 1e6, b / 1e6
+    return None
+
+
 def pub_times(w, node):
     return {mid: t for t, inc, mid in monitors.publications(w, node)}
 
@@ -333,6 +352,10 @@ def judge_pair(w0, w1, s0, s1, nsync, res):
             a0, a1 = after_restart(w0), after_restart(w1)
             res.count('join_ahead_sets_after_restart_without_listeners', a0)
             if (len(h0) >= 5 and len(h1) < 0.25 * len(h0)) or (a0 >= 5 and a1 < 0.25 * a0):
+                hb = held_by_hellos(w1, t1)
+                if hb is not None:
+                    bad.append(('consumer-held-in-receive-loop-by-hello-broadcasts', f'{hb[0]}, a synchronized consumer of src, sent no request from {hb[1]:.0f} to {hb[2]:.0f} ms while it was waiting for input and src was broadcasting HELLO messages for listeners that were still connecting; k{i} received {len(h1)} sets with the listeners, {len(h0)} without'))
+                    continue
                 bad.append(('sync-consumer-starved-by-ephemeral-listener', f'k{i} ({"joining src with a source that is ahead" if i == 0 else "synchronized consumer of src"}) received {len(h1)} sets ({a1} after the restart of src) with ephemeral listeners on src, {len(h0)} ({a0}) without'))
             continue
         if h0 != h1:
